@@ -61,7 +61,7 @@ pub fn paragraphs(h: &crate::harvest::Harvest, tier: Tier) -> Vec<String> {
     let mut v: Vec<String> = set.into_iter().collect();
     v.sort_by(|a, b| (a.len(), a).cmp(&(b.len(), b)));
     // bound: the shortest N (nothing sampled: the bound is on length rank)
-    let cap = tier.pick(150, 1200);
+    let cap = tier.pick(80, 1200);
     // keep the hand-written heavy ones regardless of length
     let mut out: Vec<String> = v.iter().take(cap).cloned().collect();
     for s in v.iter().skip(cap) {
@@ -79,14 +79,18 @@ pub fn rests(h: &crate::harvest::Harvest, tier: Tier) -> Vec<String> {
     for i in 0..g1.len() {
         set.insert(g1.get(i));
     }
+    // quick: seeds up to 60 characters (a bound on length, not a sample)
+    let maxlen = tier.pick(60, 100000);
     for s in &h.seeds {
-        set.insert(s.clone());
+        if s.chars().count() <= maxlen {
+            set.insert(s.clone());
+        }
     }
     let pre = g3(
         &h.seeds,
-        &G3Opts { prefixes: true, suffixes: false, windows: 0, deletions: false, ends: vec!["".into()], second_order: false },
+        &G3Opts { prefixes: true, suffixes: false, windows: 0, deletions: false, ends: vec!["".into()], second_order: false, ws_variants: vec![] },
     );
-    let cap = tier.pick(400, 30000);
+    let cap = tier.pick(200, 30000);
     for s in pre.into_iter().take(cap) {
         set.insert(s);
     }
@@ -109,7 +113,7 @@ pub fn run(tier: Tier) -> i32 {
     let ds = rests(&h, tier);
     report.set("paragraphs", ps.len() as u64);
     report.set("rests", ds.len() as u64);
-    if ps.len() < 100 || ds.len() < 500 {
+    if ps.len() < 60 || ds.len() < 500 {
         report.machinery(format!("pair sets too small: {} x {}", ps.len(), ds.len()));
     }
     let curated = FstDictionary::curated();
